@@ -324,3 +324,53 @@ def write_evidence(ctx, level, coverage, assumptions, violations):
     with open(os.path.join(VERIF, 'evidence', f'{ctx.pid}.json'), 'w') as f:
         json.dump(ev, f, indent=1, default=str)
     return ev
+
+
+# ------------------------------------------------------------------------------------------------
+# purity guard (history independence / no aliasing of caller-owned arrays)
+# ------------------------------------------------------------------------------------------------
+def _snap(x):
+    import numpy as np
+    if isinstance(x, np.ndarray):
+        return x.copy()
+    if isinstance(x, (list, tuple)):
+        return type(x)(_snap(v) for v in x)
+    if isinstance(x, dict):
+        return {k: _snap(v) for k, v in x.items()}
+    return x
+
+
+def _same(a, b):
+    import numpy as np
+    if isinstance(a, np.ndarray) or isinstance(b, np.ndarray):
+        a, b = np.asarray(a), np.asarray(b)
+        return a.shape == b.shape and a.dtype == b.dtype and bool(np.array_equal(a, b, equal_nan=a.dtype.kind in 'fc'))
+    if isinstance(a, (list, tuple)) and isinstance(b, (list, tuple)):
+        return len(a) == len(b) and all(_same(x, y) for x, y in zip(a, b))
+    if isinstance(a, dict) and isinstance(b, dict):
+        return a.keys() == b.keys() and all(_same(a[k], b[k]) for k in a)
+    if hasattr(a, 'data') and hasattr(b, 'data') and not isinstance(a, (int, float, complex, str, bytes)):
+        return _same(getattr(a, 'data'), getattr(b, 'data'))
+    try:
+        return bool(a == b) or (a != a and b != b)
+    except Exception:
+        return True
+
+
+def pure_call(ctx, item, case, fn, *args, **kwargs):
+    """Call `fn(*args, **kwargs)` twice with the SAME argument objects.  Reports a predicate failure when an
+    ndarray argument was modified in place (the implementation aliases a caller-owned array) or when the second
+    result differs from the first (the answer depends on an earlier call).  Returns the first result.
+    Use only for functions that are documented as pure (no `inplace=True`, no `out=` buffers, no random draws)."""
+    before = (_snap(args), _snap(kwargs))
+    r1 = fn(*args, **kwargs)
+    keep = _snap(r1)
+    if not _same((args, kwargs), before):
+        ctx.pred_fail(item, case, 'implementation modified a caller-owned argument array in place')
+        return keep
+    r2 = fn(*args, **kwargs)
+    if not _same(r2, keep):
+        ctx.pred_fail(item, case, 'second evaluation with the same arguments differs from the first (history dependence)')
+    elif not _same((args, kwargs), before):
+        ctx.pred_fail(item, case, 'implementation modified a caller-owned argument array in place (second call)')
+    return keep
